@@ -18,6 +18,8 @@ Blank  == F("blank", "", "", "none", "one")
 Stems == { << "eq", "x", "y+1" >>, << "eq", "y", "0.5*x+g" >>, << "eq", "g", "[2.]*10" >>,
            << "lag1", "z", "x" >>, << "lag2", "z", "x" >>, << "lag3", "z", "x" >>,
            << "ic", "x", "3" >>, << "ic", "x", "2.5" >>,
+           \* names containing digits and underscores (full names look like C1_HH2__F)
+           << "ic", "x1", "3" >>, << "eq", "x1", "y+1" >>, << "lag1", "z_2", "x1" >>, << "ic", "H2__F", "2.5" >>,
            << "maxtime", "MaxTime", "3" >>, << "errtol", "Err_Tolerance", "1e-4" >>,
            << "usert", "t", "2*k" >>,
            << "multieq", "x", "y" >> }
@@ -56,7 +58,10 @@ MC_FormsReduced == {
     F("multieq", "x", "y", "hash", "one"),
     F("multieq", "x", "y", "exo", "tight"),
     F("usert", "t", "2*k", "digits", "one"),
-    F("usert", "t", "2*k", "exo", "tight") }
+    F("usert", "t", "2*k", "exo", "tight"),
+    F("ic", "x1", "3", "none", "tight"),
+    F("eq", "x1", "y+1", "plain", "one"),
+    F("lag1", "z_2", "x1", "none", "wide") }
 
 (* middle alphabet (thorough2): the reduced one plus second spellings *)
 MC_FormsMiddle == MC_FormsReduced \cup {
